@@ -1391,3 +1391,140 @@ pub fn wide_position(rng: &mut Rng, objective: usize, gold: bool) -> [u8; 64] {
     }
     best_c
 }
+
+// ---------------------------------------------------------------------------------------
+// Positions assembled rank by rank (and file by file) from a catalogue of regular patterns - full
+// ranks of one piece type in one or both colours, ranks of one colour, alternating patterns,
+// single pieces, empty ranks.  Printing, parsing and every bitboard routine that treats a whole
+// rank or file at once meets its special cases here; random positions practically never contain
+// a completely regular rank.
+pub fn rows_position(rng: &mut Rng) -> [u8; 64] {
+    let mut c = [0u8; 64];
+    let mut left = [[0usize; 7]; 2]; // pieces still available per colour and type
+    for o in 0..2 {
+        for t in 1..=6 {
+            left[o][t] = COMPLEMENT[t];
+        }
+    }
+    let by_file = rng.chance(0.25);
+    let at = |line: usize, k: usize| -> usize { if by_file { k * 8 + line } else { line * 8 + k } };
+    let mut take = |c: &mut [u8; 64], i: usize, o: usize, t: usize, left: &mut [[usize; 7]; 2]| -> bool {
+        // rabbits never on their goal rank; traps are filled only when a friend is already beside them
+        if left[o][t] == 0 || (t == 1 && ((o == 0 && i < 8) || (o == 1 && i >= 56))) || TRAPS.contains(&i) {
+            return false;
+        }
+        left[o][t] -= 1;
+        c[i] = (t + 6 * o) as u8;
+        true
+    };
+    let mut lines: Vec<usize> = (0..8).collect();
+    // random order, so that the scarce pieces (eight rabbits a side) go to different lines in different positions
+    for k in (1..8).rev() {
+        lines.swap(k, rng.below(k + 1));
+    }
+    for &line in lines.iter() {
+        match rng.below(9) {
+            0 | 1 => {} // empty
+            2 => {
+                // a full line of rabbits, colours by a random mask (all gold, all silver and every mixture)
+                let mask = match rng.below(4) {
+                    0 => 0xFF,
+                    1 => 0x00,
+                    2 => 1 << rng.below(8),
+                    _ => rng.below(256),
+                };
+                for k in 0..8 {
+                    let o = if (mask >> k) & 1 == 1 { 0 } else { 1 };
+                    if !take(&mut c, at(line, k), o, 1, &mut left) {
+                        take(&mut c, at(line, k), 1 - o, 1, &mut left);
+                    }
+                }
+            }
+            3 => {
+                // the officers of one colour, shuffled
+                let o = rng.below(2);
+                let mut ts = [6usize, 5, 4, 4, 3, 3, 2, 2];
+                for k in (1..8).rev() {
+                    ts.swap(k, rng.below(k + 1));
+                }
+                for k in 0..8 {
+                    take(&mut c, at(line, k), o, ts[k], &mut left);
+                }
+            }
+            4 => {
+                // one piece type, both colours, as many as there are
+                let t = 2 + rng.below(3);
+                for k in 0..8 {
+                    if rng.chance(0.7) {
+                        let o = rng.below(2);
+                        if !take(&mut c, at(line, k), o, t, &mut left) {
+                            take(&mut c, at(line, k), 1 - o, t, &mut left);
+                        }
+                    }
+                }
+            }
+            5 => {
+                // alternating occupied / empty
+                let phase = rng.below(2);
+                for k in 0..8 {
+                    if k % 2 == phase {
+                        let p = random_piece(rng) as usize;
+                        take(&mut c, at(line, k), (p - 1) / 6, (p - 1) % 6 + 1, &mut left);
+                    }
+                }
+            }
+            6 => {
+                // a single piece
+                let p = random_piece(rng) as usize;
+                take(&mut c, at(line, rng.below(8)), (p - 1) / 6, (p - 1) % 6 + 1, &mut left);
+            }
+            7 => {
+                // a full line of random pieces
+                for k in 0..8 {
+                    let p = random_piece(rng) as usize;
+                    take(&mut c, at(line, k), (p - 1) / 6, (p - 1) % 6 + 1, &mut left);
+                }
+            }
+            _ => {
+                // one colour only, random pieces, some gaps
+                let o = rng.below(2);
+                for k in 0..8 {
+                    if rng.chance(0.8) {
+                        let p = random_piece(rng) as usize;
+                        take(&mut c, at(line, k), o, (p - 1) % 6 + 1, &mut left);
+                    }
+                }
+            }
+        }
+    }
+    // pieces on traps where a friend stands beside the trap
+    for &t in TRAPS.iter() {
+        if rng.chance(0.5) {
+            let fr: Vec<usize> = neighbours(t).into_iter().filter(|&n| c[n] != 0).collect();
+            if !fr.is_empty() {
+                let o = if c[fr[rng.below(fr.len())]] <= 6 { 0 } else { 1 };
+                for ty in [1usize, 2, 3, 4] {
+                    if left[o][ty] > 0 {
+                        left[o][ty] -= 1;
+                        c[t] = (ty + 6 * o) as u8;
+                        break;
+                    }
+                }
+            }
+        }
+    }
+    // each side keeps a rabbit
+    for (o, v) in [(0usize, 1u8), (1usize, 7u8)] {
+        if !c.contains(&v) {
+            for _ in 0..100 {
+                let i = 8 + rng.below(48);
+                if c[i] == 0 && !TRAPS.contains(&i) {
+                    c[i] = v;
+                    left[o][1] -= 1;
+                    break;
+                }
+            }
+        }
+    }
+    c
+}
